@@ -13,6 +13,8 @@ for i, a in enumerate(sys.argv):
     if a == '--props': props_override = sys.argv[i+1].split(',')
 names = sorted(os.path.basename(os.path.dirname(p)) for p in glob.glob('/verif/seeded/*/patch.diff'))
 names = [n for n in names if n.startswith(prefix)]
+for i, a in enumerate(sys.argv):
+    if a == '--match': names = [n for n in names if re.search(sys.argv[i+1], n)]
 free = list(range(slots)); lock = threading.Lock()
 def run(name):
     with lock: slot = free.pop()
